@@ -5,6 +5,15 @@ import XjsModel.Model.Writer
 -/
 namespace Xjs
 
+/-- `if needsParens { cw.WriteRune('(') }` -/
+def CW.openIf (cw : CW) (b : Bool) : CW := if b then cw.writeRune 40 else cw
+/-- `if needsParens { cw.WriteRune(')') }` -/
+def CW.closeIf (cw : CW) (b : Bool) : CW := if b then cw.writeRune 41 else cw
+/-- `if i > 0 { cw.WriteRune(','); cw.WriteSpace() }` -/
+def CW.sepIf (cw : CW) (first : Bool) : CW := if first then cw else (cw.writeRune 44).writeSpace
+/-- `if i > 0 { cw.WriteNewline() }` -/
+def CW.newlineIf (cw : CW) (first : Bool) : CW := if first then cw else cw.writeNewline
+
 def writeIdent (id : Ident) (cw : CW) : CW :=
   ((cw.leadingComments id.tok.comments).addNamedMapping id.tok.sl id.tok.sc id.value).writeString id.value
 
@@ -12,8 +21,7 @@ def writeIdent (id : Ident) (cw : CW) : CW :=
 def writeParams : List Ident → Bool → CW → CW
   | [], _, cw => cw
   | p :: rest, first, cw =>
-    let cw := if first then cw else (cw.writeRune 44).writeSpace
-    writeParams rest false (writeIdent p cw)
+    writeParams rest false (writeIdent p (cw.sepIf first))
 
 /-- token head of most nodes: leading comments, mapping -/
 def CW.head (cw : CW) (tok : Token) : CW := (cw.leadingComments tok.comments).addMapping tok.sl tok.sc
@@ -36,25 +44,22 @@ mutual
     | .binary tok l op r, cw =>
       if l.isNone then cw.panic else
       let my := operatorPrecedence tok.type
-      let lp := l.prec < my
-      let cw := if lp then cw.writeRune 40 else cw
-      let cw := writeExpr l cw
-      let cw := if lp then cw.writeRune 41 else cw
+      let lp : Bool := l.prec < my
+      let cw := (writeExpr l (cw.openIf lp)).closeIf lp
       let cw := (((cw.writeSpace).head tok).writeString op).writeSpace
       if r.isNone then cw.panic else
-      let rp := r.prec ≤ my
-      let cw := if rp then cw.writeRune 40 else cw
-      let cw := writeExpr r cw
-      if rp then cw.writeRune 41 else cw
+      let rp : Bool := r.prec ≤ my
+      (writeExpr r (cw.openIf rp)).closeIf rp
     | .unary tok op r, cw =>
       let cw := (((cw.leadingComments tok.comments).separateSigns op).addMapping tok.sl tok.sc).writeString op
       if r.isNone then cw.panic else
-      if r.prec < precUnary then (writeExpr r (cw.writeRune 40)).writeRune 41
-      else writeExpr r cw
+      let rp : Bool := r.prec < precUnary
+      (writeExpr r (cw.openIf rp)).closeIf rp
     | .postfix tok l op, cw =>
       let cw := cw.leadingComments tok.comments
       if l.isNone then cw.panic else
-      let cw := if l.prec < precPostfix then (writeExpr l (cw.writeRune 40)).writeRune 41 else writeExpr l cw
+      let lp : Bool := l.prec < precPostfix
+      let cw := (writeExpr l (cw.openIf lp)).closeIf lp
       (cw.addMapping tok.sl tok.sc).writeString op
     | .group tok e rparen, cw =>
       let cw := ((cw.head tok).writeRune 40).increaseIndent
@@ -99,14 +104,12 @@ mutual
   def writeExprList : ExprList → Bool → CW → CW
     | .nil, _, cw => cw
     | .cons e rest, first, cw =>
-      let cw := if first then cw else (cw.writeRune 44).writeSpace
-      writeExprList rest false (writeExpr e cw)
+      writeExprList rest false (writeExpr e (cw.sepIf first))
 
   def writeProps : PropList → Bool → CW → CW
     | .nil, _, cw => cw
     | .cons k v rest, first, cw =>
-      let cw := if first then cw else (cw.writeRune 44).writeSpace
-      let cw := writeExpr k cw
+      let cw := writeExpr k (cw.sepIf first)
       let cw := (cw.writeRune 58).writeSpace
       writeProps rest false (writeExpr v cw)
 
@@ -157,15 +160,13 @@ mutual
   def writeBlockStmts : StmtList → Bool → CW → CW
     | .nil, _, cw => cw
     | .cons s rest, first, cw =>
-      let cw := if first then cw else cw.writeNewline
-      writeBlockStmts rest false (writeStmt s cw.writeIndent)
+      writeBlockStmts rest false (writeStmt s (cw.newlineIf first).writeIndent)
 
   /-- statements of the program: newline between -/
   def writeProgramStmts : StmtList → Bool → CW → CW
     | .nil, _, cw => cw
     | .cons s rest, first, cw =>
-      let cw := if first then cw else cw.writeNewline
-      writeProgramStmts rest false (writeStmt s cw)
+      writeProgramStmts rest false (writeStmt s (cw.newlineIf first))
 
 end
 
